@@ -2,7 +2,8 @@
 
 Model: lean/HydroVerif/Model/C16.lean (imports the grid geometry of Model/C07.lean); lemmas: Lemmas/C16.lean;
 theorems: lean/HydroVerif/Props/C16.lean.
-Correspondence (bit-exact, Float instance of the model vs the real code on the freshly built extension):
+Correspondence (Float instance of the model vs the real code on the freshly built extension; bit-exact on the
+unchanged tree, accepted up to the rounding of the weight sums, 4 + ncells ulp — see `tolerant_equal`):
 `Catchment.intersect(grid, filled)` -> (area_grid, idxcells, weights) with the sub-grid corner, shape, data array
 and parent row/column bookkeeping; the kernel `c_hydrodiy_gis.intersect` on raw point lists (edges, outside on
 every side, NaN rows, repeats); `hydrodiy.gis.grid.voronoi` and the kernel `c_hydrodiy_gis.voronoi`. The listing
@@ -27,7 +28,15 @@ inside it; filled and unfilled. Voronoi: the same catchments with 1..6 points in
 cell centres / mirrored about centres (equidistant) / bitwise duplicates / lattice coordinates / 1e30..1e150
 away; more points than cells and more cells than points. A case is non-trivial when at least one centre is
 inside the coarse grid (intersection) or always (Voronoi). Malformed stream: no overlap (ValueError), zero points
-(error), a catchment without cells (NaN weights, ValueError).
+(error), a catchment without cells (NaN weights, ValueError). Glue stream (error kinds by name, compared with the
+model's `Catchment.intersect` / `voronoiPy`): catchment not delineated (TypeError / ValueError), points argument as a
+scalar, flat [x, y], flat of other lengths, (n, 1), (n, 3), (0, 2), (0, 3) arrays, grids without rows / columns.
+History stream: one Catchment, one Grid, one points array through 3-4 steps: call, then one of {edit the returned
+idxcells / weights / weight grid / Voronoi weights in place, shift / rescale / reshape (incl. rows<->cols swap, same
+size) the Grid, shift / rescale / swap the flow-direction grid, overwrite the held cell arrays in place with as many
+other cells, delineate again from another outlet, clone / deepcopy / pickle the Catchment and the Grid and keep both,
+move / reverse / duplicate the points in place, toggle filled, nothing}, then call again on every object; every
+answer is compared with the model and the oracle evaluated on the state read from the public attributes.
 """
 import json
 import math
@@ -280,6 +289,45 @@ class Stream:
         self.qinfo.append(info)
 
 
+def _floats(tok):
+    body = tok.strip("[]")
+    if body == "":
+        return []
+    out = []
+    for t in body.replace(";", ",").split(","):
+        if t == "nan":
+            out.append(float("nan"))
+        elif len(t) == 16 and all(ch in "0123456789abcdef" for ch in t):
+            out.append(C.h2f(t))
+        else:
+            return None
+    return out
+
+
+def tolerant_equal(impl, rep, case):
+    """what the correspondence accepts besides identical strings:
+    * a rejection the harness cannot attribute to a named guard (`err:other:...`: another exception class or message)
+      against any rejection of the model — which guard / which exception class rejects an input outside the property's
+      quantifier is incidental; accepting it, or rejecting an input the model accepts, is not;
+    * weights that differ by the rounding of a sum of `count` equal terms taken in another order / as a product:
+      4 + (number of cells or points of the case) ulp; every integer and the layout must be identical."""
+    if impl.startswith("err:other") and rep.startswith("err:"):
+        return True
+    ti, tm = impl.split(" "), rep.split(" ")
+    if len(ti) != len(tm) or impl.startswith("err") or rep.startswith("err"):
+        return False
+    n = max(len(case.get(k) or []) for k in ("area", "filled_cells", "points"))
+    for a, b in zip(ti, tm):
+        if a == b:
+            continue
+        fa, fb = _floats(a), _floats(b)
+        if fa is None or fb is None or len(fa) != len(fb) or a.count(";") != b.count(";"):
+            return False
+        if any(C.ulp_diff(x, y) > 4 + n for x, y in zip(fa, fb)):
+            return False
+    return True
+
+
 def canon_isect(reply):
     """sort the (cell, weight) pairs of an `ok ...` reply; everything else unchanged"""
     t = reply.split(" ")
@@ -364,12 +412,49 @@ def build_catchment(ctx, mods, fine, mode, via, area, filled, rng):
 
 
 # ---------------------------------------------------------------------------------------------
-def run_intersect(ctx, st, mods, ca, fine, coarse, cells, filled, tag, origin="gen"):
+def cells_of(ca, which):
+    """the public cell-list property of a Catchment as a list, None when it is not delineated"""
+    try:
+        return [int(c) for c in getattr(ca, which)]
+    except ValueError:
+        return None
+
+
+def state_of_grid(g):
+    return {"nrows": int(g.nrows), "ncols": int(g.ncols), "xll": float(g.xllcorner), "yll": float(g.yllcorner),
+            "csz": float(g.cellsize)}
+
+
+def opt_ilist(cells):
+    return "none" if cells is None else C.ilist(cells)
+
+
+def run_intersect(ctx, st, mods, ca, fine, coarse, cells, filled, tag, origin="gen", gobj=None, hist=None):
+    """one call of ca.intersect(grid, filled) compared with the model and the oracle on the CURRENT state
+    (`fine`, `coarse`, `cells` describe it); `gobj` is the Grid object to use (a fresh one when None);
+    returns what the call returned, or None"""
     np, Grid, Catchment = mods[:3]
-    g = Grid("coarse", ncols=coarse["ncols"], nrows=coarse["nrows"], cellsize=coarse["csz"],
-             xllcorner=coarse["xll"], yllcorner=coarse["yll"])
-    case = {"kind": "intersect", "fine": fine, "coarse": coarse, "filled": filled,
-            "area": [int(c) for c in ca._idxcells_area], "filled_cells": [int(c) for c in ca._idxcells_area_filled]}
+    g = gobj if gobj is not None else Grid("coarse", ncols=coarse["ncols"], nrows=coarse["nrows"], cellsize=coarse["csz"],
+                                            xllcorner=coarse["xll"], yllcorner=coarse["yll"])
+    area_l, filled_l = cells_of(ca, "idxcells_area"), cells_of(ca, "idxcells_area_filled")
+    case = {"kind": "intersect", "fine": fine, "coarse": coarse, "filled": filled, "area": area_l, "filled_cells": filled_l}
+    if hist is not None:
+        case["history"] = list(hist)
+        tag = "history/" + tag
+    req = f"isectc {geom_tok(coarse)} {geom_tok(fine)} {opt_ilist(area_l)} {opt_ilist(filled_l)} {1 if filled else 0}"
+    if cells is None:
+        # not delineated: outside the property's quantifier, correspondence of the error kind only
+        try:
+            with warnings.catch_warnings():
+                warnings.simplefilter("ignore")
+                ca.intersect(g, filled=filled)
+            impl = "ok:unexpected"
+        except Exception as e:
+            impl = "err:cellsNone" if isinstance(e, TypeError) and "NoneType" in str(e) \
+                else f"err:other:{type(e).__name__}:{str(e)[:80]}".replace(" ", "_")
+        ctx.count(("isect-none", geom_tok(fine), geom_tok(coarse), filled), False, f"intersect/{tag}/not_delineated")
+        st.add(req, impl, case, canon_isect)
+        return None
     # pre-flight on padded buffers: Catchment.intersect hands the kernel nrows*ncols slots and the kernel does not
     # check them, so a kernel that lists a cell twice would write past the end of the wrapper's arrays
     gis = mods[4]
@@ -401,17 +486,16 @@ def run_intersect(ctx, st, mods, ca, fine, coarse, cells, filled, tag, origin="g
     ninside = sum(expect.values())
     ovl = "none" if ninside + namb == 0 else ("all" if ninside == len(cells) else "part")
     multi = "multi" if any(v > 1 for v in expect.values()) else "uniq"
-    ctx.count(("isect", geom_tok(fine), geom_tok(coarse), tuple(cells)), ninside > 0,
+    ctx.count(("isect", geom_tok(fine), geom_tok(coarse), tuple(cells), len(hist) if hist else -1), ninside > 0,
               f"intersect/{tag}/overlap={ovl}/{multi}" + ("/edge" if on_edge else "") + ("/amb" if namb else ""),
               sample={k: case[k] for k in ("fine", "coarse", "filled")} if origin == "gen" and ninside > 0 else None)
-    req = f"isect {geom_tok(coarse)} {geom_tok(fine)} {C.ilist(cells)}"
-
     if err is not None:
         st.add(req, err, case, canon_isect)
         if ninside > 0:
             ctx.finding("intersect/raises_with_overlap", "intersect raises although catchment centres fall inside the grid",
                         {**case, "error": err, "inside": ninside})
-        return
+        return None
+    ret = (gr, idx, w)
     idx = [int(v) for v in idx]
     w = [float(v) for v in w]
     pairs = sorted(zip(idx, w))
@@ -428,16 +512,16 @@ def run_intersect(ctx, st, mods, ca, fine, coarse, cells, filled, tag, origin="g
     ratio2 = (F(fine["csz"]) / F(coarse["csz"])) ** 2
     if len(set(idx)) != len(idx):
         ctx.finding("intersect/duplicate_cell", "a grid cell is listed more than once", {**case, **got})
-        return
+        return ret
     if any(not 0 <= k < nrc * ncc for k in idx):
         ctx.finding("intersect/invalid_cell", "a listed cell is not a cell of the grid", {**case, **got})
-        return
+        return ret
     if len(idx) != len(w) or len(idx) == 0:
         ctx.finding("intersect/lengths", "idxcells and weights differ in length or are empty", {**case, **got})
-        return
+        return ret
     if any(not math.isfinite(v) for v in w):
         ctx.finding("intersect/weight_not_finite", "a weight is NaN or infinite", {**case, **got})
-        return
+        return ret
     if namb == 0:
         if set(idx) != set(expect):
             miss = sorted(set(expect) - set(idx))
@@ -445,7 +529,7 @@ def run_intersect(ctx, st, mods, ca, fine, coarse, cells, filled, tag, origin="g
             sig = "intersect/cell_missing" if miss else "intersect/cell_without_centre"
             ctx.finding(sig, "the listed cells are not the cells holding a catchment-cell centre",
                         {**case, **got, "missing": miss, "extra": extra})
-            return
+            return ret
         for k, v in pairs:
             want = expect[k] * ratio2
             if not relclose(F(v), want, F(1, 10 ** 11)):
@@ -454,13 +538,13 @@ def run_intersect(ctx, st, mods, ca, fine, coarse, cells, filled, tag, origin="g
                 ctx.finding(sig, "weight differs from (number of centres in the cell) x (csz_area/csz)^2",
                             {**case, **got, "cell": k, "weight": v, "count": expect[k], "expected": float(want),
                              "got_over_expected": float(r)})
-                return
+                return ret
         tot = sum(F(v) for v in w) * F(coarse["csz"]) ** 2
         want = ninside * F(fine["csz"]) ** 2
         if not relclose(tot, want, F(1, 10 ** 10)):
             ctx.finding("intersect/area_not_conserved", "sum(weights) x csz^2 differs from inside count x csz_area^2",
                         {**case, **got, "total": float(tot), "expected": float(want)})
-            return
+            return ret
     else:
         # some centre is within 1e-9 cells of a coarse edge and the float pipeline is inexact: bounds only
         cnt = {k: F(v) / ratio2 for k, v in pairs}
@@ -472,7 +556,7 @@ def run_intersect(ctx, st, mods, ca, fine, coarse, cells, filled, tag, origin="g
             ctx.finding("intersect/counts_out_of_bounds",
                         "weights are not whole multiples of the area ratio consistent with the centres safely inside each cell",
                         {**case, **got, "expected_at_least": {str(k): n for k, n in expect.items()}, "ambiguous": namb})
-            return
+            return ret
     # sub-grid bookkeeping, stated from the returned list alone
     rows = [k // ncc for k in idx]
     cols = [k % ncc for k in idx]
@@ -481,18 +565,18 @@ def run_intersect(ctx, st, mods, ca, fine, coarse, cells, filled, tag, origin="g
     if (rs, re_, cs, ce) != want_rc:
         ctx.finding("intersect/parent_rowcol_range", "parent rows/cols start/end are not the min/max of the listed cells",
                     {**case, **got, **sub, "expected": list(want_rc)})
-        return
+        return ret
     if data.shape != (re_ - rs + 1, ce - cs + 1) or (int(gr.nrows), int(gr.ncols)) != data.shape:
         ctx.finding("intersect/subgrid_shape", "the weight grid does not span rows_start..rows_end x cols_start..cols_end",
                     {**case, **got, **sub})
-        return
+        return ret
     want = np.zeros(data.shape)
     for k, v in zip(idx, w):
         want[k // ncc - rs, k % ncc - cs] = v
     if not np.array_equal(want, data):
         ctx.finding("intersect/weight_misplaced", "a weight is not at (row - row_start, col - col_start) of the weight grid, or a cell without centre is not 0",
                     {**case, **got, **sub, "data": data.tolist(), "expected": want.tolist()})
-        return
+        return ret
     tolx = 8 * (abs(F(coarse["xll"])) + F(coarse["csz"]) * (ncc + 1)) * F(1, 2 ** 52)
     toly = 8 * (abs(F(coarse["yll"])) + F(coarse["csz"]) * (nrc + 1)) * F(1, 2 ** 52)
     wx = F(coarse["xll"]) + cs * F(coarse["csz"])
@@ -503,15 +587,16 @@ def run_intersect(ctx, st, mods, ca, fine, coarse, cells, filled, tag, origin="g
         ctx.finding("intersect/subgrid_geometry", "the weight grid is not aligned with the parent cells it names",
                     {**case, **got, **sub, "xll": float(gr.xllcorner), "yll": float(gr.yllcorner),
                      "expected": [float(wx), float(wy)]})
-        return
+        return ret
     par = (int(gr.parentgrid_nrows), int(gr.parentgrid_ncols), float(gr.parentgrid_cellsize),
            float(gr.parentgrid_xllcorner), float(gr.parentgrid_yllcorner))
     if par != (nrc, ncc, coarse["csz"], coarse["xll"], coarse["yll"]):
         ctx.finding("intersect/parent_attributes", "parent grid attributes are not those of the intersected grid",
                     {**case, "got": list(par)})
-        return
+        return ret
     if namb == 0:
         st.addq(f"isectQ {geom_tok_q(coarse)} {geom_tok_q(fine)} {C.ilist(cells)}", ("isect", pairs, (rs, re_, cs, ce), case))
+    return ret
 
 
 def run_kernel(ctx, st, mods, gis, g, csz_area, pts, tag):
@@ -712,10 +797,52 @@ def voronoi_expect(fine, cells, pts):
     return counts, namb, tie
 
 
-def run_voronoi(ctx, st, mods, gis, voronoi, ca, fine, cells, pts, tag, wrapper_ok, origin="gen"):
+_KSRC = {}
+
+
+def kernel_error_name(code, fn="c_voronoi"):
+    """name of the guard of `fn` in the CURRENT c_grid.c that returns GRID_ERROR + __LINE__ == code"""
+    path = C.REPO / "src" / "hydrodiy" / "gis" / "c_grid.c"
+    if path not in _KSRC:
+        _KSRC[path] = path.read_text(errors="replace").splitlines()
+    lines = _KSRC[path]
+    ln = int(code) - 50000
+    if not 1 <= ln <= len(lines) or "GRID_ERROR" not in lines[ln - 1]:
+        return f"code{code}"
+    for k in range(ln - 2, max(ln - 6, 0), -1):
+        t = lines[k].replace(" ", "")
+        if t.startswith("if("):
+            if "npoints<1" in t:
+                return "noPoints"
+            if "nrows<1" in t or "ncols<1" in t:
+                return "badGrid"
+            return "guard:" + t[:40]
+    return f"code{code}"
+
+
+def wrapper_error_name(e):
+    """error kind of an exception raised by grid.voronoi"""
+    msg = str(e)
+    if isinstance(e, ValueError) and "idxcells_area is None" in msg:
+        return "err:notDelineated"
+    if isinstance(e, AssertionError):
+        return "err:badShape"
+    if isinstance(e, ValueError) and "c_hydrodiy_gis.voronoi returns" in msg:
+        code = "".join(ch for ch in msg.split("returns")[1] if ch.isdigit())
+        return "err:" + kernel_error_name(code)
+    return f"err:other:{type(e).__name__}:{msg[:60]}".replace(" ", "_")
+
+
+def run_voronoi(ctx, st, mods, gis, voronoi, ca, fine, cells, pts, tag, wrapper_ok, origin="gen", hist=None, parr=None):
+    """kernel and wrapper on the CURRENT state (`fine`, `cells`, `pts`); `parr` = the points array object to hand to
+    the wrapper (a fresh one when None); returns the array the wrapper returned, or None"""
     np = mods[0]
     case = {"kind": "voronoi", "fine": fine, "area": cells, "points": [list(p) for p in pts]}
+    if hist is not None:
+        case["history"] = list(hist)
+        tag = "history/" + tag
     ncells, npts = len(cells), len(pts)
+    wret = None
     # kernel, with the point and weight buffers cut out of larger ones (the pinned kernel read xypoints[2*i], i < ncells)
     m = max(ncells, npts, 1)
     big = np.zeros((m + 1, 2), dtype=np.float64)
@@ -724,40 +851,42 @@ def run_voronoi(ctx, st, mods, gis, voronoi, ca, fine, cells, pts, tag, wrapper_
     try:
         ierr = gis.voronoi(fine["nrows"], fine["ncols"], fine["xll"], fine["yll"], fine["csz"],
                            np.array(cells, dtype=np.int64), big[:npts], wbig[:npts])
+        ierr = int(ierr)
     except Exception as e:
         ierr = f"{type(e).__name__}:{str(e)[:60]}".replace(" ", "_")
     wk = [float(v) for v in wbig[:npts]]
-    impl = "ok " + C.flist(wk) if ierr == 0 else ("err:noPoints" if isinstance(ierr, int) else "err:other:" + ierr)
+    impl = "ok " + C.flist(wk) if ierr == 0 else ("err:" + kernel_error_name(ierr) if isinstance(ierr, int) else "err:other:" + ierr)
     req = f"vor {geom_tok(fine)} {C.ilist(cells)} {pairs_tok(pts, C.f2h)}"
     st.add(req, impl, {**case, "entry": "c_hydrodiy_gis.voronoi"})
     w = wk
     if npts >= 1 and (wrapper_ok or ncells <= npts):
         try:
-            w = [float(v) for v in voronoi(ca, np.array(pts, dtype=np.float64))]
+            wret = voronoi(ca, parr if parr is not None else np.array(pts, dtype=np.float64))
+            w = [float(v) for v in wret]
             implw = "ok " + C.flist(w)
         except Exception as e:
-            implw = f"err:other:{type(e).__name__}:{str(e)[:60]}".replace(" ", "_")
+            implw = wrapper_error_name(e)
             w = []
-        st.add(req, implw, {**case, "entry": "grid.voronoi"})
+        st.add(f"vorpy {geom_tok(fine)} {C.ilist(cells)} rows 2 {C.fmat(pts)}", implw, {**case, "entry": "grid.voronoi"})
     if npts < 1 or ncells < 1:
         # outside the property's quantifier (1..6 points, non-empty catchment): correspondence only
         ctx.count(("vor0", geom_tok(fine), tuple(cells), tuple(pts)), False,
                   "voronoi/no_points" if npts < 1 else "voronoi/no_cells")
-        return
+        return wret
     counts, namb, tie = voronoi_expect(fine, cells, pts)
-    ctx.count(("vor", geom_tok(fine), tuple(cells), tuple(pts)), True,
+    ctx.count(("vor", geom_tok(fine), tuple(cells), tuple(pts), len(hist) if hist else -1), True,
               f"voronoi/{tag}/" + ("cells>points" if ncells > npts else "cells<=points") + ("/tie" if tie else "") + ("/amb" if namb else ""),
               sample=case if origin == "gen" and ncells <= 6 else None)
     got = {"weights": w}
     if ierr != 0 or len(w) != npts:
         ctx.finding("voronoi/error_or_length", "voronoi fails or returns a wrong number of weights", {**case, **got, "ierr": ierr})
-        return
+        return wret
     if any(not (v >= 0 and math.isfinite(v)) for v in w):
         ctx.finding("voronoi/negative_weight", "a Voronoi weight is negative, NaN or infinite", {**case, **got})
-        return
+        return wret
     if abs(sum(F(v) for v in w) - 1) > F(1, 10 ** 12):
         ctx.finding("voronoi/sum_not_one", "Voronoi weights do not sum to 1", {**case, **got, "sum": float(sum(w))})
-        return
+        return wret
     if namb == 0:
         for j, (v, c) in enumerate(zip(w, counts)):
             if C.ulp_diff(v, c / ncells) > 2:
@@ -768,7 +897,7 @@ def run_voronoi(ctx, st, mods, gis, voronoi, ca, fine, cells, pts, tag, wrapper_
                                                                       else "voronoi/not_fraction_closest")
                 ctx.finding(sig, "weight differs from the fraction of catchment cells whose closest point (lowest index on ties) it is",
                             {**case, **got, "point": j, "expected": [c / ncells for c in counts]})
-                return
+                return wret
         st.addq(f"vorQ {geom_tok_q(fine)} {C.ilist(cells)} {pairs_tok([(F(x), F(y)) for x, y in pts], C.rat)}",
                 ("vor", w, None, case))
     else:
@@ -776,6 +905,162 @@ def run_voronoi(ctx, st, mods, gis, voronoi, ca, fine, cells, pts, tag, wrapper_
         if any(abs(x - round(x)) > F(1, 10 ** 6) for x in k) or any(round(x) < c or round(x) > c + namb for x, c in zip(k, counts)):
             ctx.finding("voronoi/counts_out_of_bounds", "weights x ncells are not whole numbers consistent with the clearly closest points",
                         {**case, **got, "at_least": counts, "ambiguous": namb})
+    return wret
+
+
+# ---------------------------------------------------------------------------------------------
+# glue of the wrappers: error kinds by name, shapes of the points argument
+def run_glue(ctx, st, mods, gis, voronoi, rng, ca, fine, area_l, wrapper_ok, guard_npoints, guard_grid):
+    np, Grid, Catchment = mods[:3]
+    fd = Grid("fd", ncols=fine["ncols"], nrows=fine["nrows"], cellsize=fine["csz"], xllcorner=fine["xll"],
+              yllcorner=fine["yll"], dtype=np.int64)
+    nd = Catchment("not-delineated", fd)
+    coarse = gen_coarse(rng, fine, area_l, 50)[0]
+    for filled in (False, True):
+        run_intersect(ctx, st, mods, nd, fine, coarse, None, filled, "glue")
+    pts, _ = gen_points(rng, fine, area_l, 8)
+    gt = geom_tok(fine)
+
+    def wrap(obj, arg, req, tag, cells):
+        try:
+            with warnings.catch_warnings():
+                warnings.simplefilter("ignore")
+                w = [float(v) for v in voronoi(obj, arg)]
+            impl = "ok " + C.flist(w)
+        except Exception as e:
+            impl = wrapper_error_name(e)
+        ctx.count(("glue", gt, tag, req[-60:]), False, f"glue/voronoi/{tag}")
+        st.add(req, impl, {"kind": "glue", "fine": fine, "area": cells, "arg": tag, "entry": "grid.voronoi"})
+        return impl
+    wrap(nd, np.array(pts), f"vorpy {gt} none rows 2 {C.fmat(pts)}", "not_delineated", None)
+    x, y = pts[0]
+    al = C.ilist(area_l)
+    wrap(ca, 3.0, f"vorpy {gt} {al} scalar {C.f2h(3.0)}", "scalar", area_l)
+    wrap(ca, [x, y, 1.0], f"vorpy {gt} {al} flat {C.flist([x, y, 1.0])}", "flat3", area_l)
+    wrap(ca, [], f"vorpy {gt} {al} flat []", "flat0", area_l)
+    wrap(ca, [x], f"vorpy {gt} {al} flat {C.flist([x])}", "flat1", area_l)
+    wrap(ca, [[x, y, 0.0], [y, x, 1.0]], f"vorpy {gt} {al} rows 3 {C.fmat([[x, y, 0.0], [y, x, 1.0]])}", "rows3", area_l)
+    wrap(ca, [[x], [y]], f"vorpy {gt} {al} rows 1 {C.fmat([[x], [y]])}", "rows1", area_l)
+    wrap(ca, np.zeros((0, 3)), f"vorpy {gt} {al} rows 3 []", "rows3x0", area_l)
+    if guard_npoints:  # the unguarded kernel wrote weights[0] of a 0-length array
+        wrap(ca, np.zeros((0, 2)), f"vorpy {gt} {al} rows 2 []", "rows2x0", area_l)
+    if wrapper_ok or len(area_l) <= 1:
+        impl = wrap(ca, [x, y], f"vorpy {gt} {al} flat {C.flist([x, y])}", "flat_pair", area_l)
+        if impl != "ok " + C.flist([1.0]):
+            ctx.finding("voronoi/single_flat_point", "a single point given as [x, y] does not get weight 1",
+                        {"kind": "voronoi", "fine": fine, "area": area_l, "points": [[x, y]], "got": impl})
+    # a grid without rows (and, when the kernel guards it, without columns: the unguarded kernel divides by zero)
+    for nr, nc in ([(0, 3)] + ([(3, 0), (0, 0), (-1, 2)] if guard_grid else [])):
+        gz = {**fine, "nrows": nr, "ncols": nc}
+        big, wbig = np.zeros((3, 2)), np.zeros(3)
+        big[0] = (x, y)
+        try:
+            ierr = int(gis.voronoi(nr, nc, fine["xll"], fine["yll"], fine["csz"], np.array([0], dtype=np.int64), big[:1], wbig[:1]))
+            impl = "ok " + C.flist([float(wbig[0])]) if ierr == 0 else "err:" + kernel_error_name(ierr)
+        except Exception as e:
+            impl = f"err:other:{type(e).__name__}"
+        ctx.count(("glue", "badgrid", nr, nc, gt), False, "glue/voronoi/bad_grid")
+        st.add(f"vor {geom_tok(gz)} [0] {pairs_tok([(x, y)], C.f2h)}", impl,
+               {"kind": "glue", "fine": gz, "area": [0], "arg": "bad_grid", "entry": "c_hydrodiy_gis.voronoi"})
+
+
+# ---------------------------------------------------------------------------------------------
+# histories on one Catchment / Grid / points array: call -> change the state -> call again
+def run_history(ctx, st, mods, gis, voronoi, rng, wrapper_ok, ih):
+    import copy
+    import pickle
+    np, Grid, Catchment = mods[:3]
+    fine = gen_fine(rng, 13 + ih)
+    mode, via, area, filled_set = gen_cells(rng, fine["nrows"], fine["ncols"], 20 + ih)
+    ca, area_l, filled_l = build_catchment(ctx, mods, fine, mode, via, area, filled_set, rng)
+    coarse, _, _, ratio = gen_coarse(rng, fine, area_l, 8 + ih)
+    g = Grid("coarse", ncols=coarse["ncols"], nrows=coarse["nrows"], cellsize=coarse["csz"],
+             xllcorner=coarse["xll"], yllcorner=coarse["yll"])
+    P = np.array(gen_points(rng, fine, area_l, ih)[0], dtype=np.float64)
+    st8 = {"filled": rng.random() < 0.4, "ret": None, "wret": None}
+    cas, grids, hist = [ca], [g], []
+
+    def call_all():
+        for i, c in enumerate(cas):
+            f_s = state_of_grid(c.flowdir)
+            for j, gg in enumerate(grids):
+                cells = cells_of(c, "idxcells_area_filled" if st8["filled"] else "idxcells_area")
+                r = run_intersect(ctx, st, mods, c, f_s, state_of_grid(gg), cells, st8["filled"],
+                                  f"step{len(hist)}", origin="history", gobj=gg, hist=hist + [f"on catchment {i} grid {j}"])
+                if i == 0 and j == 0:
+                    st8["ret"] = r
+            pts = [(float(a), float(b)) for a, b in P]
+            wr = run_voronoi(ctx, st, mods, gis, voronoi, c, f_s, cells_of(c, "idxcells_area"), pts, f"step{len(hist)}",
+                             wrapper_ok, origin="history", hist=hist + [f"on catchment {i}"], parr=P)
+            if i == 0:
+                st8["wret"] = wr
+
+    def mirror(arr, n):
+        arr[...] = (n - 1) - arr
+
+    call_all()
+    for _ in range(rng.randint(2, 3)):
+        fd = ca.flowdir
+        n = int(fd.nrows) * int(fd.ncols)
+        m = rng.choice(["edit_returned", "edit_returned", "grid_shift", "grid_cellsize", "grid_shape", "flowdir_shift",
+                        "flowdir_cellsize", "flowdir_swap", "cells_inplace", "cells_inplace", "redelineate", "clone",
+                        "points_inplace", "toggle_filled", "same_again"])
+        if m == "edit_returned":
+            if st8["ret"] is not None:
+                gr, idx, w = st8["ret"]
+                idx[...] = idx[::-1] + 1
+                w *= -3.0
+                gr.data[...] = 7.5
+                gr.xllcorner = np.float64(1e9)
+            if st8["wret"] is not None:
+                st8["wret"][...] = 5.0
+        elif m == "grid_shift":
+            g.xllcorner = np.float64(float(g.xllcorner) + rng.choice([-1.5, -0.5, 0.5, 1.0, 2.5]) * float(fd.cellsize))
+            g.yllcorner = np.float64(float(g.yllcorner) + rng.choice([-1.0, 0.0, 0.5, 1.5]) * float(fd.cellsize))
+        elif m == "grid_cellsize":
+            g.cellsize = np.float64(float(fd.cellsize) * rng.choice(RATIOS + RATIOS_FRAC))
+        elif m == "grid_shape":
+            if rng.random() < 0.5:
+                g.nrows, g.ncols = g.ncols, g.nrows
+            else:
+                g.nrows, g.ncols = np.int64(rng.randint(1, 8)), np.int64(rng.randint(1, 8))
+        elif m == "flowdir_shift":
+            fd.xllcorner = np.float64(float(fd.xllcorner) + rng.choice([-2.0, 0.5, 1.0]) * float(fd.cellsize))
+            fd.yllcorner = np.float64(float(fd.yllcorner) + rng.choice([-1.0, 0.5, 3.0]) * float(fd.cellsize))
+        elif m == "flowdir_cellsize":
+            r = float(g.cellsize) / float(fd.cellsize)
+            fd.cellsize = np.float64(float(fd.cellsize) * rng.choice([0.5, 2.0]))
+            g.cellsize = np.float64(float(fd.cellsize) * max(1.0, min(4.0, r)))
+        elif m == "flowdir_swap":
+            fd.nrows, fd.ncols = fd.ncols, fd.nrows            # same number of cells: every cell number stays valid
+        elif m == "cells_inplace":
+            a, f = ca.idxcells_area, ca.idxcells_area_filled   # the arrays the object holds: edited in place, same length
+            mirror(a, n)
+            if f is not a:
+                mirror(f, n)
+        elif m == "redelineate":
+            cur = cells_of(ca, "idxcells_area")
+            if via == "delineate" and cur:
+                ca.delineate_area(rng.choice(cur))     # a sub-catchment (possibly empty: an outlet with nothing upstream)
+        elif m == "clone" and len(cas) < 2:
+            how = rng.choice(["clone", "deepcopy", "pickle"])
+            c2 = ca.clone() if how == "clone" else (copy.deepcopy(ca) if how == "deepcopy" else pickle.loads(pickle.dumps(ca)))
+            g2 = copy.deepcopy(g) if rng.random() < 0.5 else pickle.loads(pickle.dumps(g))
+            cas.append(c2)
+            grids.append(g2)
+            m = f"clone({how})"
+        elif m == "points_inplace":
+            k = rng.choice(["shift", "reverse", "duplicate"])
+            if k == "shift":
+                P += rng.choice([-1.0, 0.5, 2.0]) * float(fd.cellsize)
+            elif k == "reverse":
+                P[...] = P[::-1].copy()
+            else:
+                P[0] = P[-1]
+        elif m == "toggle_filled":
+            st8["filled"] = not st8["filled"]
+        hist.append(m)
+        call_all()
 
 
 # ---------------------------------------------------------------------------------------------
@@ -844,6 +1129,21 @@ def body(ctx):
             coarse, align, ov, ratio = gen_coarse(rng, fine, area_l, done_i)
             run_intersect(ctx, st, mods, empty, fine, coarse, [], False, "empty_catchment")
 
+    # ---- glue of the wrappers (error kinds by name, shapes of the points argument) on a few catchments
+    guard_npoints = "npoints < 1" in ksrc or "npoints<1" in ksrc
+    guard_grid = "nrows < 1 || ncols < 1" in ksrc.split("long long c_voronoi")[-1]
+    for ig in range(ctx.scale(12, 60)):
+        fine = gen_fine(rng, ig)
+        mode, via, area, filled_set = gen_cells(rng, fine["nrows"], fine["ncols"], ig)
+        ca, area_l, filled_l = build_catchment(ctx, mods, fine, mode, via, area, filled_set, rng)
+        run_glue(ctx, st, mods, gis, voronoi, rng, ca, fine, area_l, wrapper_ok, guard_npoints, guard_grid)
+
+    # ---- histories on one Catchment / Grid / points array
+    nhist = ctx.scale(150, 1200)
+    for ih in range(nhist):
+        run_history(ctx, st, mods, gis, voronoi, rng, wrapper_ok, ih)
+    ctx.extra["histories"] = nhist
+
     # ---- the kernel on raw points
     for ik in range(ctx.scale(400, 4000)):
         g = gen_fine(rng, ik)
@@ -857,6 +1157,9 @@ def body(ctx):
     for req, impl, rep, case, canon in zip(st.reqs, st.impls, replies, st.cases, st.canon):
         if canon is not None:
             rep = canon(rep)
+        if impl != rep and tolerant_equal(impl, rep, case):
+            ctx.hist["correspondence/equal_within_tolerance"] = ctx.hist.get("correspondence/equal_within_tolerance", 0) + 1
+            rep = impl
         ctx.compare("C16", {"request": req[:400], **case}, impl[:4000], rep[:4000])
 
     # ---- exact instance (the one the theorems are about) vs the code, where the exact oracle decides
